@@ -16,11 +16,11 @@ def inodesL : List Node → List Nat
   | n :: ns => inodesN n ++ inodesL ns
 end
 
--- every name in the forest is a single path component and every directory can be listed
+-- every name in the forest is a single path component and directory records are directories
 mutual
 def goodN : Node → Prop
   | .leaf e _ => ¬ e.name.contains '/'
-  | .dir e listable kids => ¬ e.name.contains '/' ∧ listable = true ∧ e.kind = 'd' ∧ goodL kids
+  | .dir e _ kids => ¬ e.name.contains '/' ∧ e.kind = 'd' ∧ goodL kids
 def goodL : List Node → Prop
   | [] => True
   | n :: ns => goodN n ∧ goodL ns
@@ -32,12 +32,26 @@ def eventsN (rp : RootParams) (dirPath dirCanon : Str) (lvl : Nat) : Node → Li
   | .leaf le z => [(.leaf le z, fillEntry le dirPath dirCanon le.absPath, lvl)]
   | .dir de l kids =>
     (.dir de l kids, fillEntry de dirPath dirCanon de.absPath, lvl) ::
-      (if rp.maxDepth == 0 || lvl < rp.maxDepth then
+      (if (rp.maxDepth == 0 || lvl < rp.maxDepth) && l then
         eventsL rp (fillEntry de dirPath dirCanon de.absPath).path (childCanon dirCanon de.name) (lvl + 1) kids
        else [])
 def eventsL (rp : RootParams) (dirPath dirCanon : Str) (lvl : Nat) : List Node → List (Node × Entry × Nat)
   | [] => []
   | n :: ns => eventsN rp dirPath dirCanon lvl n ++ eventsL rp dirPath dirCanon lvl ns
+end
+
+-- the directories whose listing fails, in the order the walker meets them (paths as spelled)
+mutual
+def faultsN (rp : RootParams) (dirPath dirCanon : Str) (lvl : Nat) : Node → List Str
+  | .leaf _ _ => []
+  | .dir de l kids =>
+    if rp.maxDepth == 0 || lvl < rp.maxDepth then
+      (if l then faultsL rp (fillEntry de dirPath dirCanon de.absPath).path (childCanon dirCanon de.name) (lvl + 1) kids
+       else [(fillEntry de dirPath dirCanon de.absPath).path])
+    else []
+def faultsL (rp : RootParams) (dirPath dirCanon : Str) (lvl : Nat) : List Node → List Str
+  | [] => []
+  | n :: ns => faultsN rp dirPath dirCanon lvl n ++ faultsL rp dirPath dirCanon lvl ns
 end
 
 /-- `check_file` (and the archive member loop) applied to a list of events -/
@@ -109,14 +123,17 @@ theorem noLimit_false (p : Plan) (h : NoLimit p) (rs : ResSt) : limitReached p r
   rcases h with h | h <;> simp [h]
 
 /-- what the traversal part of the state looks like afterwards: more inodes recorded, nothing else -/
-structure WalkAfter (w w' : WalkSt) (ins : List Nat) : Prop where
+structure WalkAfter (w w' : WalkSt) (ins : List Nat) (faults : List Str) : Prop where
   sub : ∀ i, i ∈ w'.visited → i ∈ w.visited ∨ i ∈ ins
   sup : ∀ i, i ∈ w.visited → i ∈ w'.visited
-  errs : w'.errCount = w.errCount ∧ w'.errPaths = w.errPaths
+  errs : w'.errCount = w.errCount + faults.length ∧ w'.errPaths = w.errPaths ++ faults
   queue : w'.queue = w.queue
 
-theorem walkAfter_refl (w : WalkSt) : WalkAfter w w [] :=
-  ⟨fun i h => Or.inl h, fun i h => h, ⟨rfl, rfl⟩, rfl⟩
+theorem walkAfter_refl (w : WalkSt) : WalkAfter w w [] [] :=
+  ⟨fun i h => Or.inl h, fun i h => h, ⟨by simp, by simp⟩, rfl⟩
+
+theorem errs_same (w : WalkSt) : w.errCount = w.errCount + ([] : List Str).length ∧ w.errPaths = w.errPaths ++ [] := by
+  simp
 
 theorem okToVisit_fresh (w : WalkSt) (e : Entry) (h : e.ino ∉ w.visited) :
     okToVisit w e = (e.kind != 'l', { w with visited := w.visited ++ [e.ino] }) := by
@@ -136,11 +153,11 @@ theorem dfs_node (p : Plan) (rp : RootParams) (hl : NoLimit p) (dirPath dirCanon
       (∀ st2 : WSt, ∃ k, visitKidsD p rp dirPath dirCanon lvl st2 rest = k) →
       (match foldReport p rp st.res (eventsN rp dirPath dirCanon lvl n) with
        | .error a => visitKidsD p rp dirPath dirCanon lvl st (n :: rest) = .error a
-       | .ok rs' => ∃ w', WalkAfter st.walk w' (inodesN n) ∧
+       | .ok rs' => ∃ w', WalkAfter st.walk w' (inodesN n) (faultsN rp dirPath dirCanon lvl n) ∧
            visitKidsD p rp dirPath dirCanon lvl st (n :: rest) =
              visitKidsD p rp dirPath dirCanon lvl { res := rs', walk := w' } rest)
   | .leaf le z, rest, st, hg, _hnd, _hfresh, _ => by
-    simp only [eventsN, foldReport]
+    simp only [eventsN, foldReport, faultsN]
     rw [visitKidsD]
     simp only [noLimit_false p hl st.res, Bool.false_eq_true, if_false, Node.entry]
     cases hr : reportEntry p rp lvl (.leaf le z) (fillEntry le dirPath dirCanon le.absPath) st.res with
@@ -154,8 +171,8 @@ theorem dfs_node (p : Plan) (rp : RootParams) (hl : NoLimit p) (dirPath dirCanon
           refine ⟨(okToVisit st.walk le).2, ?_, rfl⟩
           unfold okToVisit
           split
-          · exact ⟨fun i h => Or.inl h, fun i h => h, ⟨rfl, rfl⟩, rfl⟩
-          · refine ⟨?_, ?_, ⟨rfl, rfl⟩, rfl⟩
+          · exact ⟨fun i h => Or.inl h, fun i h => h, errs_same _, rfl⟩
+          · refine ⟨?_, ?_, errs_same _, rfl⟩
             · intro i hi
               simp only [List.mem_append, List.mem_singleton] at hi
               rcases hi with h | h
@@ -163,28 +180,41 @@ theorem dfs_node (p : Plan) (rp : RootParams) (hl : NoLimit p) (dirPath dirCanon
               · right; simp [inodesN, hk, h]
             · intro i hi; simp [hi]
         · simp only [hk]
-          exact ⟨st.walk, ⟨fun i h => Or.inl h, fun i h => h, ⟨rfl, rfl⟩, rfl⟩, rfl⟩
+          exact ⟨st.walk, ⟨fun i h => Or.inl h, fun i h => h, errs_same _, rfl⟩, rfl⟩
       · simp only [hmax]
-        exact ⟨st.walk, ⟨fun i h => Or.inl h, fun i h => h, ⟨rfl, rfl⟩, rfl⟩, rfl⟩
+        exact ⟨st.walk, ⟨fun i h => Or.inl h, fun i h => h, errs_same _, rfl⟩, rfl⟩
   | .dir de listable kids, rest, st, hg, hnd, hfresh, hk => by
     simp only [goodN] at hg
-    obtain ⟨hname, hlist, hkd, hgk⟩ := hg
-    subst hlist
-    simp only [eventsN, foldReport]
+    obtain ⟨hname, hkd, hgk⟩ := hg
+    simp only [eventsN, foldReport, faultsN]
     rw [visitKidsD]
     simp only [noLimit_false p hl st.res, Bool.false_eq_true, if_false, Node.entry]
-    cases hr : reportEntry p rp lvl (.dir de true kids) (fillEntry de dirPath dirCanon de.absPath) st.res with
+    cases hr : reportEntry p rp lvl (.dir de listable kids) (fillEntry de dirPath dirCanon de.absPath) st.res with
     | error a => rfl
     | ok r1 =>
       simp only
       by_cases hmax : (rp.maxDepth == 0 || decide (lvl < rp.maxDepth)) = true
-      · simp only [hmax, if_true]
+      · simp only [hmax, if_true, Bool.true_and]
         have hfr : de.ino ∉ st.walk.visited := hfresh de.ino (by simp [inodesN])
         rw [okToVisit_fresh st.walk de hfr]
         simp only
         have hkind : (de.kind != 'l') = true := by rw [hkd]; decide
-        by_cases hdummy : True
-        · simp only [hkind, if_true]
+        simp only [hkind, if_true]
+        rw [visitDirD]
+        cases listable with
+        | false =>
+          -- the listing fails: one error, nothing below is reported, the walk goes on with the siblings
+          simp only [Bool.not_false, if_true, Bool.false_eq_true, if_false, foldReport]
+          refine ⟨_, ?_, rfl⟩
+          refine ⟨?_, ?_, ⟨by simp, by simp⟩, rfl⟩
+          · intro i hi
+            simp only [List.mem_append, List.mem_singleton] at hi
+            rcases hi with h | h
+            · exact Or.inl h
+            · right; simp [inodesN, h]
+          · intro i hi; simp [hi]
+        | true =>
+          simp only [Bool.not_true, Bool.false_eq_true, if_false, if_true]
           -- descend
           have hnd' : (inodesL kids).Nodup := (List.nodup_cons.mp (by simpa [inodesN] using hnd)).2
           have hnotin : de.ino ∉ inodesL kids := (List.nodup_cons.mp (by simpa [inodesN] using hnd)).1
@@ -194,8 +224,6 @@ theorem dfs_node (p : Plan) (rp : RootParams) (hl : NoLimit p) (dirPath dirCanon
             rcases hv with h | h
             · exact hfresh i (by simp [inodesN, hi]) h
             · subst h; exact hnotin hi
-          rw [visitDirD]
-          simp only [Bool.not_true, Bool.false_eq_true, if_false]
           have hd := depth_child dirCanon de.name rp.base hname hc hb
           rw [hd, hlvl]
           have ih := dfs_list p rp hl (fillEntry de dirPath dirCanon de.absPath).path (childCanon dirCanon de.name) (lvl + 1)
@@ -221,9 +249,8 @@ theorem dfs_node (p : Plan) (rp : RootParams) (hl : NoLimit p) (dirPath dirCanon
               · right; simp [inodesN, h]
             · intro i hi
               exact hw.sup i (by simp [hi])
-        · exact absurd trivial hdummy
-      · simp only [hmax]
-        exact ⟨st.walk, ⟨fun i h => Or.inl h, fun i h => h, ⟨rfl, rfl⟩, rfl⟩, rfl⟩
+      · simp only [hmax, Bool.false_and, Bool.false_eq_true, if_false, foldReport]
+        exact ⟨st.walk, ⟨fun i h => Or.inl h, fun i h => h, errs_same _, rfl⟩, rfl⟩
 
 /-- **DFS exactness (forest)** -/
 theorem dfs_list (p : Plan) (rp : RootParams) (hl : NoLimit p) (dirPath dirCanon : Str) (lvl : Nat)
@@ -232,10 +259,10 @@ theorem dfs_list (p : Plan) (rp : RootParams) (hl : NoLimit p) (dirPath dirCanon
       goodL ns → (inodesL ns).Nodup → (∀ i ∈ inodesL ns, i ∉ st.walk.visited) →
       (match foldReport p rp st.res (eventsL rp dirPath dirCanon lvl ns) with
        | .error a => visitKidsD p rp dirPath dirCanon lvl st ns = .error a
-       | .ok rs' => ∃ w', WalkAfter st.walk w' (inodesL ns) ∧
+       | .ok rs' => ∃ w', WalkAfter st.walk w' (inodesL ns) (faultsL rp dirPath dirCanon lvl ns) ∧
            visitKidsD p rp dirPath dirCanon lvl st ns = .ok { res := rs', walk := w' })
   | [], st, _, _, _ => by
-    simp only [eventsL, foldReport]
+    simp only [eventsL, foldReport, faultsL]
     exact ⟨st.walk, walkAfter_refl st.walk, by rw [visitKidsD]⟩
   | n :: ns, st, hg, hnd, hfresh => by
     simp only [goodL] at hg
@@ -246,7 +273,7 @@ theorem dfs_list (p : Plan) (rp : RootParams) (hl : NoLimit p) (dirPath dirCanon
     have hdisj := (List.nodup_append.mp hnd).2.2
     have hn := dfs_node p rp hl dirPath dirCanon lvl hc hb hlvl n ns st hgn hndn
       (fun i hi => hfresh i (by simp [hi])) (fun st2 => ⟨_, rfl⟩)
-    simp only [eventsL]
+    simp only [eventsL, faultsL]
     rw [foldReport_append]
     cases hf : foldReport p rp st.res (eventsN rp dirPath dirCanon lvl n) with
     | error a =>
@@ -271,7 +298,8 @@ theorem dfs_list (p : Plan) (rp : RootParams) (hl : NoLimit p) (dirPath dirCanon
         rw [hf2] at ih
         obtain ⟨w2, hw2, heq2⟩ := ih
         refine ⟨w2, ?_, by rw [heq1, heq2]⟩
-        refine ⟨?_, ?_, ⟨hw2.errs.1.trans hw1.errs.1, hw2.errs.2.trans hw1.errs.2⟩, hw2.queue.trans hw1.queue⟩
+        refine ⟨?_, ?_, ⟨by rw [hw2.errs.1, hw1.errs.1, List.length_append]; omega,
+          by rw [hw2.errs.2, hw1.errs.2, List.append_assoc]⟩, hw2.queue.trans hw1.queue⟩
         · intro i hi
           rcases hw2.sub i hi with h | h
           · rcases hw1.sub i h with h' | h'
